@@ -11,11 +11,14 @@ func main() {
 		{Name: "blas-l2", Gen: genBlas(2)},
 		{Name: "blas-l3", Gen: genBlas(3)},
 		{Name: "blas-wrap", Gen: genBlasWrap},
+		{Name: "blas-wrap-struct", Gen: genBlasWrapStruct},
+		{Name: "lapack64", Gen: genLapack64},
 		{Name: "lapack", Gen: genLapack},
 		{Name: "mat-index", Gen: genMatIndex},
 		{Name: "mat-views", Gen: genMatViews},
 		{Name: "mat-ctor", Gen: genMatCtor},
 		{Name: "mat-shape", Gen: genMatShape},
+		{Name: "mat-band", Gen: genMatBand},
 	}
 	vlib.Main("C07", groups...)
 }
